@@ -42,7 +42,9 @@ class PCN(Sampler):  # Refactor to Proposal-based sampler?
         # accept/reject
         acc = 0
         u_theta = np.log(np.random.rand())
-        if (u_theta <= alpha):
+        if (u_theta <= alpha) and \
+           (not np.isnan(loglike_eval_star)) and \
+           (not np.isinf(loglike_eval_star)):
             self.current_point = x_star
             self.current_likelihood_logd = loglike_eval_star
             acc = 1
